@@ -85,7 +85,11 @@ Section C07.
     - (* update_clocks *) unfold R7 in *. unfold update_clocks. cbv zeta. cbn [emit trace ptime rtime].
       rewrite advance_same, mon7_app, H. cbn [mon7]. rewrite advance_rule. unfold clocks at 1 2. cbn [nth fst snd].
       rewrite !Z.eqb_refl. reflexivity.
-    - (* uod event *) apply R7_emit_other; [|exact H]. destruct x; try discriminate; reflexivity.
+    - (* init *) apply (R7_neutral (emit e (EUInit n (c_id c)))); [reflexivity|reflexivity|reflexivity|].
+      apply R7_emit_other; [reflexivity|exact H].
+    - (* exec *) apply R7_emit_other; [reflexivity|exact H].
+    - (* finalize *) unfold fin_u. apply (R7_neutral (emit e (EUFinal (c_name c) (c_id c)))); [reflexivity|reflexivity|reflexivity|].
+      apply R7_emit_other; [reflexivity|exact H].
     - now apply R7_write.
     - (* set_out_by *) unfold set_out_by. apply R7_emit_other; [reflexivity|].
       apply (R7_neutral e); [reflexivity|reflexivity|reflexivity|exact H].
